@@ -2,7 +2,9 @@ package rules
 
 import (
 	"fmt"
+	"go/constant"
 	"go/types"
+	"strings"
 
 	"golang.org/x/tools/go/ssa"
 
@@ -32,6 +34,30 @@ func c15(c *Ctx) {
 	u.runFull("C15.server")
 	d.clientCompression("C15.client")
 	d.preNetworkOffer("C15.client")
+
+	// ---- literals agree
+	{
+		var server, client []string
+		scan := func(fn *ssa.Function, out *[]string) {
+			for _, b := range fn.Blocks {
+				for _, in := range b.Instrs {
+					for _, op := range in.Operands(nil) {
+						if k, ok := (*op).(*ssa.Const); ok && k.Value != nil && k.Value.Kind() == constant.String {
+							if sv := constant.StringVal(k.Value); strings.Contains(sv, "permessage-deflate") && len(sv) > len("permessage-deflate") {
+								*out = append(*out, sv)
+							}
+						}
+					}
+				}
+			}
+		}
+		scan(u.upgrade, &server)
+		scan(d.dial, &client)
+		okS := len(server) == 1 && extensionLineOK(server[0])
+		okC := len(client) == 1 && extensionLineOK("Sec-WebSocket-Extensions: "+client[0]+"\r\n")
+		r.Check("C15.literals-agree", shortFn(u.upgrade), "announced-literal", u.upgrade.Pos(), okS, fmt.Sprintf("server announces %q: must be permessage-deflate with exactly server_no_context_takeover and client_no_context_takeover (what the client's acceptance test requires)", server))
+		r.Check("C15.literals-agree", shortFn(d.dial), "offered-literal", d.dial.Pos(), okC, fmt.Sprintf("client offers %q: must contain the token the server matches on and both parameters", client))
+	}
 
 	// ---- paired
 	{
